@@ -168,6 +168,11 @@ class Volume(CellModifierInput):
         if not self.in_cell_block and self._problem and self._volume:
             self._check_redundant_definitions()
             cells = self._problem.cells
+            if len(self._volume) > len(cells):
+                raise MalformedInputError(
+                    self._input,
+                    f"The volume input gives {len(self._volume)} values for {len(cells)} cells",
+                )
             for i, cell in enumerate(cells):
                 if i >= len(self._volume):
                     return
